@@ -43,8 +43,8 @@ let table : (string * (v list -> v)) list = [
       of_res (Gibbs.b_gibbs_steps fops r (to_nat k) (to_bits v0) (to_bitsl draws)) | _ -> failwith "args"));
   ("c05_p_gibbs", (fun a -> let (r, a) = prbm a in match a with [k; v0; draws] ->
       of_res (Gibbs.p_gibbs_steps fops r (to_nat k) (to_bits v0) (to_bitsl draws)) | _ -> failwith "args"));
-  (* storage model: skip (1 binary / 2 purification), overwrite, k, heap, src, draws -> [heap'; ret] *)
-  ("c05_call", (fun a -> match a with [skip; ow; k; hp; src; draws] ->
-      let (hp', ret) = Gibbs.gibbs_call (to_nat skip) (to_bool ow) (to_nat k) (to_bitsl hp) (to_nat src) (to_bitsl draws) in
+  (* storage model: skip (1 binary / 2 purification), overwrite, same_dtype, k, heap, src, draws -> [heap'; ret] *)
+  ("c05_call", (fun a -> match a with [skip; ow; sd; k; hp; src; draws] ->
+      let (hp', ret) = Gibbs.gibbs_call (to_nat skip) (to_bool ow) (to_bool sd) (to_nat k) (to_bitsl hp) (to_nat src) (to_bitsl draws) in
       L [of_bitsl hp'; of_nat ret] | _ -> failwith "args"));
 ]
